@@ -42,6 +42,23 @@ TEXTS = [
 ]
 
 
+def build_mm(grammar_file):
+    """the grammar given as a string, or loaded from a .tx file (then the classes carry the
+    grammar's file name, which must never be mistaken for the model's)"""
+    from textx import metamodel_from_str, metamodel_from_file
+    if not grammar_file:
+        return metamodel_from_str(GRAMMAR)
+    d = tempfile.mkdtemp(prefix='c33g_')
+    p = os.path.join(d, 'lang.tx')
+    try:
+        with open(p, 'w') as f:
+            f.write(GRAMMAR)
+        return metamodel_from_file(p)
+    finally:
+        os.remove(p)
+        os.rmdir(d)
+
+
 def linecol(text, pos):
     line = text.count('\n', 0, pos) + 1
     col = pos - (text.rfind('\n', 0, pos) + 1) + 1
@@ -57,7 +74,8 @@ def term(v):
 
 
 def run(item):
-    ti, target, wrap, from_file, timeout_ms = item
+    ti, target, wrap, from_file, timeout_ms = item[:5]
+    grammar_file = len(item) > 5 and item[5]
     from textx import metamodel_from_str
     from textx.exceptions import TextXError
     from textx.model import textxerror_wrap
@@ -71,7 +89,7 @@ def run(item):
     K = z3.Int('K')
 
     def path(c):
-        mm = metamodel_from_str(GRAMMAR)
+        mm = build_mm(grammar_file)
         count = [0]
         info = {}
         supplied = {}
@@ -163,7 +181,8 @@ def run(item):
     finally:
         os.remove(fn)
         os.rmdir(tmpd)
-    res = {'case': 'text%d %s %s %s' % (ti, target, 'wrap' if wrap else 'raise', 'file' if from_file else 'str'),
+    res = {'case': 'text%d %s %s %s%s' % (ti, target, 'wrap' if wrap else 'raise', 'file' if from_file else 'str',
+                                         ' grammar-from-file' if grammar_file else ''),
            'paths': ctx.paths, 'queries': ctx.queries, 'solver_s': ctx.secs, 'bad': [], 'ok': 0, 'noerror': 0,
            'item': list(item)}
     for o in outs:
@@ -185,7 +204,8 @@ def classify(b):
 
 def replay_case(item, index, supplied_fields):
     """concrete replay: the same failure with concrete supplied values"""
-    ti, target, wrap, from_file, _ = item
+    ti, target, wrap, from_file = item[:4]
+    grammar_file = len(item) > 5 and item[5]
     from textx import metamodel_from_str
     from textx.exceptions import TextXError
     from textx.model import textxerror_wrap
@@ -196,7 +216,7 @@ def replay_case(item, index, supplied_fields):
     with open(fn, 'w') as f:
         f.write(text)
     vals = {'line': 71, 'col': 72, 'filename': 'supplied.file', 'nchar': 73}
-    mm = metamodel_from_str(GRAMMAR)
+    mm = build_mm(grammar_file)
     count = [0]
     info = {}
 
@@ -248,7 +268,8 @@ def main():
         for target in ('obj', 'match'):
             for wrap in (False, True):
                 for from_file in (False, True):
-                    items.append((ti, target, wrap, from_file, 20000))
+                    items.append((ti, target, wrap, from_file, 20000, False))
+                    items.append((ti, target, wrap, from_file, 20000, True))
     results = pmap(run, items)
     chk.cov['functions_encoded'] = src_hash(MM.TextXMetaModel.process, M.get_location, M.textxerror_wrap,
                                             M.parse_tree_to_objgraph)
